@@ -216,7 +216,9 @@ func (r *c16run) judge(cl *callSpec) {
 		r.judgeOutputs(cl)
 		return
 	}
-	slack := 400 * time.Millisecond
+	// a response counts as "in time" only with room for the link and for every injected thread
+	// stall (a stalled reader or dispatcher thread delays a response inside the client)
+	slack := 400*time.Millisecond + r.cs.S.StallTime
 	deadline := cl.startedAt + r.reqTimeout
 	inTime := cl.respondedAt >= 0 && cl.respondedAt < deadline-slack
 	tooLate := cl.respondedAt < 0 || cl.respondedAt > deadline+slack
